@@ -66,6 +66,7 @@ type KOpts struct {
 	NoInjected  bool
 	OnlyCLI     bool // C16: restrict to the nine two-channel options
 	CustomRich  bool // C17: custom_types entries are frequent
+	ManyTypes   bool // C11: most messages are selected, so that a nested type occurs under several roots
 	Sort        *bool
 }
 
@@ -82,7 +83,7 @@ func nonEmpty(f *ir.File) []string {
 // DrawTypes draws a non-empty subset of the non-empty messages. The message
 // declared last by the generator (the one with the deepest reference graph) is
 // usually among them.
-func DrawTypes(t *rapid.T, f *ir.File) []string {
+func DrawTypes(t *rapid.T, f *ir.File, many ...bool) []string {
 	c := nonEmpty(f)
 	deepest, best := "", -1
 	for _, n := range c {
@@ -92,6 +93,12 @@ func DrawTypes(t *rapid.T, f *ir.File) []string {
 	}
 	var out []string
 	for _, n := range c {
+		if len(many) > 0 && many[0] {
+			if rapid.IntRange(0, 5).Draw(t, "type?") != 0 {
+				out = append(out, n)
+			}
+			continue
+		}
 		if (n == deepest && rapid.IntRange(0, 5).Draw(t, "deepest?") != 0) || rapid.IntRange(0, 2).Draw(t, "type?") == 0 {
 			out = append(out, n)
 		}
@@ -164,7 +171,7 @@ func Config(t *rapid.T, f *ir.File, l *ir.Layout, o KOpts) *ir.Config {
 	if o.Types != nil {
 		c.Types = o.Types
 	} else {
-		c.Types = DrawTypes(t, f)
+		c.Types = DrawTypes(t, f, o.ManyTypes)
 	}
 	if o.Sort != nil {
 		c.Sort = *o.Sort
@@ -270,7 +277,11 @@ func FieldOptions(t *rapid.T, f *ir.File, c *ir.Config, o KOpts) {
 		}
 		if rapid.IntRange(0, p).Draw(t, fmt.Sprintf("ovr%d", i)) == 0 {
 			ovr++
-			c.NameOverrides[key(oc, "ovrkey")] = fmt.Sprintf("ovr%d_name", ovr)
+			name := fmt.Sprintf("ovr%d_name", ovr)
+			if rapid.IntRange(0, 3).Draw(t, "ovrcamel") == 0 {
+				name = fmt.Sprintf("ovr%dCamelName", ovr)
+			}
+			c.NameOverrides[key(oc, "ovrkey")] = name
 		}
 	}
 	c.Validators = map[string][]string{}
